@@ -444,6 +444,17 @@ func (ea *errAnalysis) runE1E2E4(ruleDrop, ruleSwallow, ruleLossy string, only f
 		}
 		ea.lossy[s.fn] = "error of " + l.calleeName(s.call) + " is only tested, not surfaced"
 	}
+	// a function without an error result that receives an error from a channel
+	// (result of a background write) and drops it loses a storage error; Close()
+	// is the enumerated exception (release operation, callers must not rely on it)
+	for _, r := range rsites {
+		if hasErrResult(r.fn) || r.fn.Name() == "Close" {
+			continue
+		}
+		if u := ea.usesOf(r.in); !u.real() {
+			ea.lossy[r.fn] = "drops the error received from " + roleOf(l, r.in.X, "", 0)
+		}
+	}
 	// close upward through functions without an error result
 	changed := true
 	for changed {
@@ -697,7 +708,7 @@ func (ea *errAnalysis) runE3(rule string, only func(fn *ssa.Function) bool) {
 				// `return itr.Close()` of repo iterators returns the sticky error too
 				if isMethodCallOn(x, recv, "Close") {
 					if _, isDefer := x.(*ssa.Defer); !isDefer {
-						if v, ok := x.(ssa.Value); ok && len(refs(v)) > 0 {
+						if v, ok := x.(ssa.Value); ok && len(refs(v)) > 0 && closeReturnsSticky(callCommon(x)) {
 							return true
 						}
 					}
@@ -724,6 +735,38 @@ func (ea *errAnalysis) runE3(rule string, only func(fn *ssa.Function) bool) {
 			}
 		})
 	}
+}
+
+// closeReturnsSticky: the Close method called here hands back the iterator's
+// sticky error: it resolves statically, every return yields a load of an
+// error field of the receiver, and Close itself never overwrites that field
+// (a Close that assigns the inner Close() result to the field loses the error
+// that ended the iteration).
+func closeReturnsSticky(cc *ssa.CallCommon) bool {
+	f := staticCallee(cc)
+	if f == nil || f.Blocks == nil || f.Signature.Results().Len() != 1 {
+		return false
+	}
+	var field *types.Var
+	for _, r := range returnsOf(f) {
+		if isRecoverReturn(r) {
+			continue
+		}
+		ld, ok := stripTrivial(retVal(r, 0)).(*ssa.UnOp)
+		if !ok || ld.Op != token.MUL {
+			return false
+		}
+		fa, ok := ld.X.(*ssa.FieldAddr)
+		if !ok {
+			return false
+		}
+		fv := fieldVar(fa.X.Type(), fa.Field)
+		if fv == nil || !isErrorType(fv.Type()) || (field != nil && field != fv) {
+			return false
+		}
+		field = fv
+	}
+	return field != nil && len(storesToField(f, field)) == 0
 }
 
 // isNilOrUnknownSuccess: the returned error operand may be nil (constant nil,
